@@ -50,3 +50,30 @@ Section msum.
   Qed.
 End msum.
 Arguments msum : simpl never.
+
+Section msum_ext.
+  Context {K : Type} `{Countable K} {A : Type}.
+
+  Lemma msum_ext (f g : K -> A -> Z) (m : gmap K A) :
+    (forall k v, m !! k = Some v -> f k v = g k v) -> msum f m = msum g m.
+  Proof.
+    unfold msum. revert f g. induction m as [|i x m Hi IH] using map_ind; intros f g Hfg.
+    - rewrite !map_fold_empty. reflexivity.
+    - rewrite (map_fold_insert_L (fun k v acc => f k v + acc)); [|intros; lia|exact Hi].
+      rewrite (map_fold_insert_L (fun k v acc => g k v + acc)); [|intros; lia|exact Hi].
+      rewrite (Hfg i x) by apply lookup_insert. f_equal. apply IH.
+      intros k v Hk. apply Hfg. rewrite lookup_insert_ne; [exact Hk|]. intros ->. congruence.
+  Qed.
+
+  (* two weight functions that agree except at key k *)
+  Lemma msum_ext_except (f g : K -> A -> Z) (m : gmap K A) k :
+    (forall k' v, k' <> k -> m !! k' = Some v -> f k' v = g k' v) ->
+    msum f m = msum g m + match m !! k with Some v => f k v - g k v | None => 0 end.
+  Proof.
+    intros Hfg. destruct (m !! k) as [v|] eqn:E.
+    - rewrite (msum_delete f m k v E), (msum_delete g m k v E).
+      rewrite (msum_ext f g (delete k m)); [lia|].
+      intros k' v' Hk'. apply lookup_delete_Some in Hk' as [Hne Hk']. apply Hfg; [congruence|exact Hk'].
+    - rewrite (msum_ext f g m); [lia|]. intros k' v' Hk'. apply Hfg; [intros ->; congruence|exact Hk'].
+  Qed.
+End msum_ext.
